@@ -181,6 +181,21 @@ def exact_reinsertion_workloads(num, per_block, laps):
     return ws
 
 
+def restart_workloads(rng, num):
+    """sustained inserts, a graceful restart, further inserts that force reclaims, another restart, lookups: what is
+    recovered must never be an older version of a key whose newer version was acknowledged"""
+    ws = []
+    for _ in range(num):
+        n = rng.choice([20, 23, 24, 25, 26, 27, 30, 33, 40, 47, 48, 49])
+        ops = [{"a": "ins", "k": rng.choice(KEYS)} for _ in range(n)]
+        ops += [{"a": "wait"}, {"a": "q"}, {"a": "reopen"}, {"a": "q"}]
+        for _ in range(rng.randint(6, 12)):
+            ops += [{"a": "ins", "k": rng.choice(KEYS)}, {"a": "wait"}, {"a": "q"}]
+        ops += [{"a": "reopen"}, {"a": "q"}, {"a": "ins", "k": rng.choice(KEYS)}, {"a": "wait"}, {"a": "q"}]
+        ws.append({"ops": ops})
+    return ws
+
+
 def mc_reclaim(d, tier):
     core.copy_specs(d, {"Reclaim", "MC_Reclaim"})
     cfgs = [dict(blocks=3, fl=1, rc=1, keys=[1, 2], cap=2, reins=[1], w=6, r=3),
@@ -363,6 +378,8 @@ def check(pid, tier):
         jobs.append(("reclaim-bigbatch-2flushers", 8, 4, 0, False,
                      reclaim_workloads(rng, 6 if th else 3, 24 * 3, 8, big=(9, 12, 15)),
                      "NoViolation_C09", "", {"flushers": 2, "reclaimers": 1, "clean_threshold": 1}, False, ()))
+        jobs.append(("reclaim-restarts", 8, 4, 0, False, restart_workloads(rng, 40 if th else 14),
+                     "NoViolation_C09", "", {"flushers": 1, "reclaimers": 1, "clean_threshold": 1}, False, ()))
         jobs.append(("reclaim-fresh-burst", 4, 4, 0, False, burst_workloads(rng, 6 if th else 3, 4, 3),
                      "NoViolation_C09", "", {"flushers": 1, "reclaimers": 1, "clean_threshold": 1}, False, ()))
         jobs.append(("reclaim-fresh-burst-8", 8, 4, 0, False, burst_workloads(rng, 6 if th else 3, 8, 3),
